@@ -1,12 +1,13 @@
 import Casket.Model.Exec
 import Casket.Spec.Exec
 import Casket.Generated.Directives
+import Casket.Generated.Registered
 import Driver.Proto
 /-
 Streams of C09.
 
   c09.pairs       scenario written-order       out = the probe's observation (status, or 1/0)
-  c09.directives  (one dummy field)            out = casket.ValidDirectives("http") joined by ','
+  c09.directives  (one dummy field)            out = casket.ValidDirectives("http") joined by ',' # those with a registered plugin
   c09.group       lines perm                   lines: ','-separated  <dir>:<hex token>|<hex token>|…
                                                perm : ','-separated indices into lines (the reordered block)
         out = groups of the block as written '#' groups of the reordered block;
@@ -88,11 +89,20 @@ def permJudge (f : List String) (out : String) : String :=
     else verdict D (parseChain a) (parseChain b) (r == "equal")
   | _, _ => "bad:unparsable:" ++ out
 
-def directivesModel (_ : List String) : String := ",".intercalate D
+/-- list entries with a registered plugin, by the regenerated tables -/
+def standardDirs : List Dir := D.filter fun d => Casket.Generated.registeredPlugins.contains d
+
+def directivesModel (_ : List String) : String :=
+  ",".intercalate D ++ "#" ++ ",".intercalate standardDirs
 
 def directivesJudge (_ : List String) (out : String) : String :=
-  if out = ",".intercalate D then "ok"
-  else "bad:list-differs:casket.ValidDirectives(\"http\") is not the list in plugin.go"
+  match out.splitOn "#" with
+  | [l, r] =>
+    if l ≠ ",".intercalate D then "bad:list-differs:casket.ValidDirectives(\"http\") is not the list in plugin.go"
+    else if r ≠ ",".intercalate standardDirs then
+      "bad:registered-differs:the directives with a registered plugin are not the RegisterPlugin calls found in the source"
+    else "ok"
+  | _ => "bad:unparsable:" ++ out
 
 def findScenario (f : List String) : Option Scenario :=
   match f with
